@@ -505,6 +505,9 @@ class TransmitterNext(Contract):
         # every step is an event-bearing timestep: Transmitter._reset takes its steps from the keys of the two partitions, and a
         # key exists only because _create_partitions appended an event under it (part of the ASSUMED summary)
         I.assume(I.heap[lat.oid]["len"] + I.heap[non.oid]["len"] > 0)
+        # outside the warm-up branch these are the transmitter's own partition lists, returned by reference (verified: steady-state
+        # contract): whoever receives them may read and rebind, never write
+        I.heap[lat.oid]["borrowed"] = I.heap[non.oid]["borrowed"] = "partition list of the transmitter"
         return (lat, non)
 
 
